@@ -280,14 +280,27 @@ namespace igris
         {
             // TODO insert optimization
             size_t _pos = pos - m_data;
+            // built first: args may refer to an element of this vector,
+            // which reserve() and the shift below move away
+            T value(std::forward<Args>(args)...);
 
             reserve(m_size + 1);
-            m_size++;
 
             iterator first = m_data + _pos;
-            iterator last = std::prev((iterator)end());
-            std::move_backward(first, last, end());
-            new (first) T(std::forward<Args>(args)...);
+            iterator last = end();
+            if (first == last)
+            {
+                igris::move_constructor(last, std::move(value));
+            }
+            else
+            {
+                // the slot at end() holds no object yet: it is constructed
+                // from the last element, the others are shifted by assignment
+                igris::move_constructor(last, std::move(*(last - 1)));
+                std::move_backward(first, last - 1, last);
+                *first = std::move(value);
+            }
+            m_size++;
 
             return first;
         }
